@@ -41,8 +41,9 @@ class FunctionsCase(Case):
         self.id = cid
         self.R, self.K, self.C, self.B, self.rmin = R, K, C, B, rmin
         self.estimators = estimators
-        self.obj_est = obj_est
-        self.con_est = con_est
+        # an index array of size one stands for every function (documented broadcasting)
+        self.obj_est = tuple(obj_est) * K if obj_est is not None and len(obj_est) == 1 else obj_est
+        self.con_est = tuple(con_est) * C if con_est is not None and len(con_est) == 1 else con_est
         self.filters = filters
         self.obj_filt = obj_filt
         self.con_filt = con_filt
@@ -291,6 +292,7 @@ def build_cases(tier):
             add(R=R, K=2, filters=(cvar_filter(0.5),), obj_filt=(-1, 0))
             add(R=R, K=1, C=1, filters=(sort_filter(1, R - 1),), obj_filt=(0,), con_filt=(-1,))
     add(R=3, K=2, filters=(sort_filter(0, 1), cvar_filter(0.5, sort=(1,))), obj_filt=(0, 1))   # two filters, one objective each
+    add(R=2, K=2, C=2, estimators=("stddev", "mean"), obj_est=(1,), con_est=(1,))   # one index for all functions
     for est in ("mean", "stddev"):
         for base in (1e8, -3e7):
             n += 1
